@@ -177,6 +177,22 @@ func (p Profile) DrawConst(t *rapid.T, ty Type, label string) m.Term {
 	for i := 0; i < n; i++ {
 		es = append(es, p.DrawScalar(t, ty.Elem(), label+".e"))
 	}
+	if p.Boundary && rapid.IntRange(0, 11).Draw(t, label+".big") == 11 {
+		// a large set (8-12 distinct elements): implementations may change representation with size
+		k := rapid.IntRange(8, 12).Draw(t, label+".bign")
+		for i := 0; i < k; i++ {
+			switch ty.Elem() {
+			case TInt:
+				es = append(es, m.Int(int64(100+i)))
+			case TStr:
+				es = append(es, m.Str("big"+string(rune('a'+i))))
+			case TDate:
+				es = append(es, m.Date(uint64(5000+i)))
+			case TBytes:
+				es = append(es, m.Bytes([]byte{byte(i), 7}))
+			}
+		}
+	}
 	if len(es) == 0 {
 		return m.Term{K: m.KSet}
 	}
